@@ -47,7 +47,7 @@ for op in prog:
             cl.demote_from_submitter()
             promoted = False
             ev("ret", op=op, outcome="ok", cv=cl.config.version)
-        elif op in ("stale_write", "stale_write_jobs", "stale_promote") and stale is not None:
+        elif op in ("stale_write", "stale_write_jobs", "stale_promote", "stale_demote") and stale is not None:
             # only attempt when this copy is certainly out of date (versions on disk only grow), i.e. the case the
             # property speaks about; a copy that is still current would be an ordinary write
             dcv, djv = disk_versions()
@@ -58,6 +58,8 @@ for op in prog:
                 continue
             if op == "stale_promote" and stale.config.submitter is not None:
                 continue
+            if op == "stale_demote" and not stale.am_i_submitter():
+                continue  # demote asserts that the copy names this host: only a copy loaded while a handle on this host held the role
             ev("call", op=op, cv=stale.config.version, jv=stale.job_status.version, disk=[dcv, djv])
             try:
                 if op == "stale_write":
@@ -65,6 +67,8 @@ for op in prog:
                 elif op == "stale_write_jobs":
                     stale.job_status.hpc_job_ids.append("stale")
                     stale.serialize_jobs("stale")
+                elif op == "stale_demote":
+                    stale.demote_from_submitter()
                 else:
                     got = stale.promote_to_submitter()
                     ev("ret", op=op, outcome="accepted" if got else "refused")
